@@ -712,3 +712,190 @@ func TestVerifC13(t *testing.T) {
 		}
 	}
 }
+
+// ---- concurrent-request leg ----------------------------------------------------------------------------------------
+// Requests for ONE subject name interleaved at query granularity: a gorm query callback starts the rival request at the
+// g-th query of the running request that is not part of an open SQL transaction (the only moments at which the store lets
+// another request in); a rival can be interleaved by a third request the same way. If no such moment exists the rival runs
+// afterwards. Plus a goroutine variant. Real managers (did:web + did:nuts on the real didstore). One JSON line per scenario.
+
+type c13Gate struct {
+	depth   int
+	target  []int // per depth: index of the non-transaction query at which the next request starts (-1: none)
+	seen    []int
+	fired   []bool
+	launch  func(depth int)
+}
+
+type c13ConcLine struct {
+	Scenario string         `json:"scenario"`
+	Pre      bool           `json:"pre"` // the subject existed before the interleaved requests
+	Gates    []int          `json:"gates"`
+	Fired    []bool         `json:"fired"`
+	Requests []string       `json:"requests"`
+	Results  []string       `json:"results"`
+	PerMeth  map[string]int `json:"dids_per_method"`
+	Versions []string       `json:"versions"`
+	Log      int64          `json:"log"`
+}
+
+func TestVerifC13Conc(t *testing.T) {
+	logrus.SetLevel(logrus.PanicLevel)
+	outDir := os.Getenv("VERIF_OUT")
+	if outDir == "" {
+		t.Skip("VERIF_OUT not set")
+	}
+	eng := storage.NewTestStorageEngine(t)
+	if err := eng.Start(); err != nil {
+		t.Fatal(err)
+	}
+	db := eng.GetSQLDatabase()
+	w := &c13World{t: t, ctx: audit.TestContext(), eng: eng, db: db, ks: nutsCrypto.NewDatabaseCryptoInstance(db),
+		store: didstore.TestStore(t, eng)}
+	w.reset([]string{"nuts", "web"})
+	gate := &c13Gate{}
+	if err := db.Callback().Query().After("gorm:after_query").Register("c13:gate", func(tx *gorm.DB) {
+		d := gate.depth
+		if d >= len(gate.target) || gate.target[d] < 0 || gate.fired[d] {
+			return
+		}
+		if _, inTx := tx.Statement.ConnPool.(gorm.TxCommitter); inTx {
+			return
+		}
+		if gate.seen[d] == gate.target[d] {
+			gate.fired[d] = true
+			gate.launch(d + 1)
+			return
+		}
+		gate.seen[d]++
+	}); err != nil {
+		t.Fatal(err)
+	}
+	f, err := os.Create(filepath.Join(outDir, "conc.jsonl"))
+	if err != nil {
+		t.Fatal(err)
+	}
+	defer f.Close()
+	do := func(req, subject string) string {
+		var err error
+		switch req {
+		case "create":
+			_, _, err = w.mgr.Create(w.ctx, didsubject.DefaultCreationOptions().With(didsubject.SubjectCreationOption{Subject: subject}))
+		case "deact":
+			err = w.mgr.Deactivate(w.ctx, subject)
+		case "addkey":
+			_, err = w.mgr.AddVerificationMethod(w.ctx, subject, orm.AssertionKeyUsage())
+		case "addsvc":
+			_, err = w.mgr.CreateService(w.ctx, subject, c13Service("A"))
+		}
+		return c13ErrClass(err)
+	}
+	finish := func(line *c13ConcLine, subject string) {
+		line.PerMeth = map[string]int{}
+		dids, err := w.mgr.ListDIDs(w.ctx, subject)
+		if err == nil {
+			for _, id := range dids {
+				line.PerMeth[id.Method]++
+				var versions []int
+				db.Table("did_document_version").Where("did = ?", id.String()).Order("version").Pluck("version", &versions)
+				line.Versions = append(line.Versions, fmt.Sprintf("%s%v", id.Method, versions))
+			}
+		}
+		line.Log = w.count("did_change_log")
+		b, _ := json.Marshal(line)
+		f.Write(append(b, '\n'))
+	}
+	type scen struct {
+		name string
+		pre  bool
+		reqs []string
+	}
+	scens := []scen{
+		{"create|create", false, []string{"create", "create"}},
+		{"create|create|create", false, []string{"create", "create", "create"}},
+		{"deact|create", true, []string{"deact", "create"}},
+		{"addkey|create", true, []string{"addkey", "create"}},
+		{"addsvc|create|create", true, []string{"addsvc", "create", "create"}},
+		{"create|deact", false, []string{"create", "deact"}},
+	}
+	n := 0
+	for _, sc := range scens {
+		for g0 := 0; g0 < 12; g0++ {
+			maxG1 := 0
+			if len(sc.reqs) > 2 {
+				maxG1 = 2
+			}
+			anyFired := false
+			for g1 := 0; g1 <= maxG1; g1++ {
+				n++
+				subject := fmt.Sprintf("c%d", n)
+				w.freshManagers()
+				if sc.pre {
+					*gate = c13Gate{}
+					if r := do("create", subject); r != "ok" {
+						t.Fatalf("pre create: %s", r)
+					}
+				}
+				line := c13ConcLine{Scenario: sc.name, Pre: sc.pre, Requests: sc.reqs, Results: make([]string, len(sc.reqs))}
+				targets := []int{g0, -1}
+				if len(sc.reqs) > 2 {
+					targets = []int{g0, g1, -1}
+				}
+				*gate = c13Gate{target: targets, seen: make([]int, len(targets)), fired: make([]bool, len(targets))}
+				ran := make([]bool, len(sc.reqs))
+				var run func(i int)
+				run = func(i int) {
+					if i >= len(sc.reqs) || ran[i] {
+						return
+					}
+					ran[i] = true
+					prev := gate.depth
+					gate.depth = i
+					line.Results[i] = do(sc.reqs[i], subject)
+					gate.depth = prev
+					// no moment outside a transaction: the next request comes afterwards
+					gate.depth = len(targets)
+					run(i + 1)
+					gate.depth = prev
+				}
+				gate.launch = run
+				run(0)
+				line.Gates = targets[:len(targets)-1]
+				line.Fired = gate.fired[:len(targets)-1]
+				*gate = c13Gate{}
+				finish(&line, subject)
+				if line.Fired[0] {
+					anyFired = true
+				}
+			}
+			if !anyFired {
+				break // the running request has no more moments outside a transaction
+			}
+		}
+	}
+	// goroutine variant (scheduling dependent): undecorated real managers
+	*gate = c13Gate{}
+	for round := 0; round < 4; round++ {
+		n++
+		subject := fmt.Sprintf("g%d", n)
+		w.freshManagers()
+		const requests = 6
+		results := make([]string, requests)
+		start := make(chan struct{})
+		doneCh := make(chan struct{}, requests)
+		for i := 0; i < requests; i++ {
+			go func(i int) {
+				defer func() { doneCh <- struct{}{} }()
+				<-start
+				_, _, err := w.mgr.Create(context.WithoutCancel(w.ctx), didsubject.DefaultCreationOptions().With(didsubject.SubjectCreationOption{Subject: subject}))
+				results[i] = c13ErrClass(err)
+			}(i)
+		}
+		close(start)
+		for i := 0; i < requests; i++ {
+			<-doneCh
+		}
+		line := c13ConcLine{Scenario: "goroutines:create x6", Requests: []string{"create", "create", "create", "create", "create", "create"}, Results: results}
+		finish(&line, subject)
+	}
+}
